@@ -3,6 +3,43 @@ package main
 import "fmt"
 
 func debugDump(c *Ctx, what string) {
+	if what == "loops" {
+		p := c.prov()
+		for f := range p.Zone {
+			for _, ic := range p.walkerLoops(f) {
+				fmt.Printf("%s out=%s whole=%v lenOK=%v early=%d multi=%v keyprob=%v sinks=%d\n", ic.construct(), ic.Out.Name(), ic.Whole, ic.LenOK, ic.EarlyExits, ic.MultiStore, ic.KeyProblems, len(ic.Sinks))
+				for _, z := range ic.ZeroPaths {
+					fmt.Printf("    zero-path justified=%v: %s\n", p.zeroPathJustified(ic, z), zeroPathString(z))
+				}
+			}
+		}
+		return
+	}
+	if what == "sinks" {
+		p := c.prov()
+		fmt.Println("problems:", p.Problems, "zone roots:", len(p.ZoneRoots), "zone fns:", len(p.Zone))
+		for f := range p.Zone {
+			fmt.Println("  zone fn", f.Name())
+		}
+		raw := 0
+		ss := p.sinks(p.Zone)
+		for _, s := range ss {
+			if s.Raw {
+				raw++
+				fmt.Printf("RAW %-8s %-28s %s just=%q\n     atoms=%s\n", s.Kind, s.Fn.Name(), c.InstrPos(s.Instr), s.Just, atomsString(s.Atoms))
+			}
+		}
+		fmt.Println("sinks:", len(ss), "raw:", raw)
+		return
+	}
+	if what == "tables" {
+		t := c.reconstructTables()
+		fmt.Println("problems:", t.Problems, "sets:", t.SetCalls, "objects:", t.Objects, "enum:", t.EnumName, "strings:", t.StringSets)
+		for _, e := range t.Entries() {
+			fmt.Printf("%s\t%s\tobj%d\n", e.Key(), t.LeafName(e.Val), e.ObjID)
+		}
+		return
+	}
 	fmt.Println("dump", what, "functions:", c.NumFuncs)
 	for _, f := range c.SortedFuncs() {
 		fmt.Println(" ", fnKey(f), c.Pos(f.Pos()))
